@@ -282,6 +282,7 @@ type c14Run struct {
 	samples     []interface{}
 	tainted     bool
 	retries     int
+	nondet      int
 	incomplete  []string
 }
 
@@ -447,6 +448,16 @@ func c14Shard(tier string, shard, n int) *CustomResult {
 					run.add(sc, prefix, x)
 				}
 			}
+			if strings.HasPrefix(res.Harness, "replay divergence") {
+				// the same prefix led to a different set of enabled threads three times in a row: a source of
+				// nondeterminism outside the locks (e.g. the order in which parallel predicate checks report). The
+				// subtree is not explored; this is reported in the evidence and makes the run non-exhaustive, it is
+				// neither a verdict nor a reason to distrust the other executions (each is checked on its own).
+				run.nondet++
+				run.complete = false
+				res.Harness = ""
+				return res, "nondeterministic", ""
+			}
 			if res.Harness != "" {
 				if res.Stacks != "" {
 					fmt.Fprintln(os.Stderr, res.Harness+"\n"+res.Stacks)
@@ -477,6 +488,7 @@ func c14Shard(tier string, shard, n int) *CustomResult {
 		cov["executions_"+k] = c
 	}
 	cov["executions_retried_after_harness_trouble"] = run.retries
+	cov["schedules_skipped_nondeterministic_replay"] = run.nondet
 	for _, n := range run.incomplete {
 		cov["budget_hit_in_"+n] = 1
 	}
